@@ -185,7 +185,7 @@ pub const PROPS: &[PropSpec] = &[
         id: "C14",
         engine: "e5",
         mix: &[],
-        classes: &["dispatch/", "ctx/leak:handler-dispatch", "service/panic"],
+        classes: &["dispatch/", "ctx/leak:handler-dispatch", "lifecycle/processed-after-replaced", "service/panic"],
         nontrivial: &[&["dispatch:counter-checked"], &["handler:burst", "handler:unregistered", "handler:closure-error"]],
         must_reach: &["handler:registered", "handler:burst", "dispatch:counter-checked", "output:checked", "site:engine.idle"],
         quick_runs: 4000,
@@ -196,7 +196,7 @@ pub const PROPS: &[PropSpec] = &[
         id: "C15",
         engine: "e5",
         mix: &[],
-        classes: &["output/", "ctx/leak:handler-output", "service/panic"],
+        classes: &["output/", "ctx/leak:handler-output", "dispatch/missed-trigger", "service/panic"],
         nontrivial: &[&["output:checked"]],
         must_reach: &["handler:registered", "output:checked", "handler:closure-error", "lifecycle:error-reported"],
         quick_runs: 4000,
@@ -209,7 +209,7 @@ pub const PROPS: &[PropSpec] = &[
         mix: &[],
         classes: &["lifecycle/", "service/panic"],
         nontrivial: &[&["handler:registered"], &["handler:unregistered", "handler:closure-error", "handler:invalid-script", "handler:probe-after-registered"]],
-        must_reach: &["handler:registered", "handler:unregistered", "handler:closure-error", "handler:invalid-script", "lifecycle:invalid-reported", "lifecycle:error-reported", "handler:probe-after-registered"],
+        must_reach: &["handler:registered", "handler:unregistered", "handler:closure-error", "handler:invalid-script", "lifecycle:invalid-reported", "lifecycle:error-reported", "handler:probe-after-registered", "handler:self-unregister", "lifecycle:replacement-checked"],
         quick_runs: 4000,
         thorough_runs: 200_000,
         rule: "register / re-register / unregister / failing-trigger / invalid-script events on 2 names x 1-3 contexts; in some runs the handler's start-up is split at the points before it subscribes and before it announces, and a watching client appends a trigger the moment <name>.registered is visible; oracle: lifecycle frames per instance (one registered or one unregistered+error; at most one unregistered; nothing after it), no trigger answered by two instances of a name, every trigger appended after .registered was visible is processed; non-trivial = a registration plus a stop / invalid script / watched start happened; distinct = distinct decision-sequence hash",
@@ -220,7 +220,7 @@ pub const PROPS: &[PropSpec] = &[
         mix: &[],
         classes: &["gen/", "service/panic"],
         nontrivial: &[&["gen:lifecycle-checked", "gen:refusal-checked"]],
-        must_reach: &["gen:spawned", "gen:refused", "gen:lifecycle-checked", "gen:refusal-checked", "gen:restarted-after-stop", "gen:send", "gen:duplex-checked", "site:gen.begin", "site:gen.input"],
+        must_reach: &["gen:spawned", "gen:refused", "gen:lifecycle-checked", "gen:refusal-checked", "gen:restarted-after-stop", "gen:send", "gen:duplex-checked", "gen:duplex-second-lifecycle", "site:gen.begin", "site:gen.input"],
         quick_runs: 3000,
         thorough_runs: 150_000,
         rule: "generator expressions producing 0..k strings as a single value, a list value and a stream, duplex echo generators, spawns with missing content / for a running name / for the same name in another context, .send frames interleaved with other traffic, simulated seconds so that several lifecycles happen; generator worker threads are scheduled actors (duplex input is polled cooperatively); oracle per spawn on the append log: (start recv* stop)+ with the produced strings in order, one spawn.error for a refused spawn, restart after a stop, sends echoed exactly once in order; non-trivial = a lifecycle or refusal was checked; distinct = distinct decision-sequence hash",
@@ -229,7 +229,7 @@ pub const PROPS: &[PropSpec] = &[
         id: "C19",
         engine: "e5",
         mix: &[],
-        classes: &["cmd/", "service/panic"],
+        classes: &["cmd/", "restart/command-lost", "restart/call-re-executed", "service/panic"],
         nontrivial: &[&["cmd:call-checked"]],
         must_reach: &["cmd:defined", "cmd:invalid-define", "cmd:invalid-reported", "cmd:call", "cmd:call-undefined", "cmd:overlapping-calls", "cmd:call-checked", "cmd:error-checked", "site:cmd.begin"],
         quick_runs: 3000,
